@@ -2,7 +2,7 @@
 # usage: tools/intake.sh <ID> <A|B> <suffix>  — copies /tmp/mut/<ID>/<A|B> to seeded/<ID>-<suffix>, validates it in a scratch
 # worktree (tools/validate_mutant.sh) and runs the property's own quick check against a scratch worktree with the patch (tools/eval_mutant.sh)
 id=$1; ab=$2; suf=$3; shift 3
-src=/tmp/mut/$id/$ab; dst=/verif/seeded/$id-$suf
+src=${MUTROOT:-/tmp/mut}/$id/$ab; dst=/verif/seeded/$id-$suf
 [ -f $src/patch.diff ] || { echo "INTAKE $id-$suf: no patch"; exit 1; }
 mkdir -p $dst/demo; cp $src/patch.diff $dst/; cp $src/demo/*.go $dst/demo/; cp $src/info.json $dst/info.json
 dest=$(jq -r .dest $dst/info.json); pkg=$(jq -r .pkg $dst/info.json); run=$(jq -r .run $dst/info.json)
